@@ -1,6 +1,8 @@
 import Prom.HP.Order
 import Prom.Lemmas.Histogram
 import Prom.Lemmas.HistCuts
+import Prom.Lemmas.HistTags
+import Prom.Lemmas.HistSemantics
 /-
 C02 — Every histogram snapshot is one consistent cut of the observations.
 
@@ -136,6 +138,130 @@ theorem collect_returns_cut {bounds : List UInt64} {prog : List (List String)} {
   have h1 : snap.count = totW r.cut := hsn.1
   have h2 : snap.cell = fun c => tot r.cut c := funext hsn.2
   rw [h1, h2]
+
+/-! ### per-thread program order (the ghost list `HM.St.tags`)
+
+`s.tags` is parallel to the claim order `s.core.claimed`: the replay machine appends `(t, i)` to it in
+exactly the step in which an event of thread `t`, inside its call number `i`, appends an observation
+to `claimed` (the claim `fetch_add` on `shard_and_count`). -/
+
+/-- **claim_tags_parallel** — one tag per claimed observation, and the tag says whose observation it
+    is: if position `i` is tagged `(t, k)`, the observation claimed at position `i` is the one the
+    `k`-th call of thread `t` of the program (`obs:v` / `flush:v1+v2+…`) makes -/
+theorem claim_tags_parallel {bounds : List UInt64} {prog : List (List String)} {s : HM.St}
+    (h : HM.MReach bounds prog s) :
+    s.tags.length = s.core.claimed.length ∧
+    ∀ (i t k : Nat), s.tags[i]? = some (t, k) → ∃ ops : List String, prog[t]? = some ops ∧
+      s.core.claimed[i]? = some (HM.obsOfVals bounds (HM.callVals (ops.getD k ""))) :=
+  ⟨HM.tags_length h, HM.tag_obs h⟩
+
+/-- **thread_claims_in_program_order** — along the claim order, the observations of one thread appear
+    with strictly increasing call indices: a thread's observations are claimed in program order, and
+    no call claims twice -/
+theorem thread_claims_in_program_order {bounds : List UInt64} {prog : List (List String)} {s : HM.St}
+    (h : HM.MReach bounds prog s) :
+    ∀ i j (hij : i < j) (hj : j < s.tags.length),
+      (s.tags[i]'(Nat.lt_trans hij hj)).1 = (s.tags[j]).1 → (s.tags[i]'(Nat.lt_trans hij hj)).2 < (s.tags[j]).2 :=
+  HM.tags_thread_increasing h
+
+/-- **cut_per_thread_prefix** — a snapshot never contains a thread's later observation without its
+    earlier ones: for every `collect` call that returned while a trace was replayed, its cut `r.cut`
+    is the first `r.cut.length` observations of the claim order, and whenever it contains position
+    `j` — an observation of call `b` of thread `t` — it also contains every position `i` that holds
+    an observation of an earlier call `a < b` of the same thread -/
+theorem cut_per_thread_prefix {bounds : List UInt64} {prog : List (List String)} {s : HM.St}
+    (h : HM.MReach bounds prog s) :
+    ∀ r ∈ s.cuts, r.cut = s.core.claimed.take r.cut.length ∧
+      ∀ i j t a b, s.tags[i]? = some (t, a) → s.tags[j]? = some (t, b) → a < b →
+        j < r.cut.length → i < r.cut.length :=
+  fun r hr => ⟨(HM.cut_eq_take h r hr).2, HM.cut_per_thread_prefix h r hr⟩
+/-! ### the cut in terms of the observed VALUES (the last step of C02) -/
+
+/-- **call_observation_stats** — the observation a call `obs:v` / `flush:v1+v2+…` makes
+    (`HM.obsOfVals bounds vals`, `vals` the values written in the call) has weight = number of values,
+    contributes to bucket cell `c` the number of its values whose first bound `>=` them is bound `c`,
+    and contributes the sum of its values to the sum cell -/
+theorem call_observation_stats (bounds : List UInt64) (vals : List Int) :
+    (HM.obsOfVals bounds vals).w = vals.length ∧
+    (∀ c, c < bounds.length → contribL (HM.obsOfVals bounds vals).upd c =
+      ((vals.filter fun v => Prom.findBucket bounds (Conc.f64OfInt v) == some c).length : Int)) ∧
+    contribL (HM.obsOfVals bounds vals).upd bounds.length = vals.foldl (· + ·) 0 :=
+  ⟨HM.obsOfVals_w bounds vals, fun c hc => HM.obsOfVals_bucket bounds vals c hc, HM.obsOfVals_sum bounds vals⟩
+
+/-- **observations_are_call_values** — in every state reached while replaying a trace, every
+    observation in the claim order (`claimed`), and the one carried by every thread that is inside an
+    `obs` / `flush` call (before or after its claim), is `obsOfVals bounds vals` for a list of values
+    `vals` (at the call mark it is `obsOfVals bounds (callVals op)`, `HM.planCall_obs`; no accepted
+    event changes it, `HM.evStep_obs`) -/
+theorem observations_are_call_values {bounds : List UInt64} {prog : List (List String)} {s : HM.St}
+    (h : HM.MReach bounds prog s) :
+    (∀ o ∈ s.core.claimed, ∃ vals, o = HM.obsOfVals bounds vals) ∧
+    (∀ th ∈ s.ths, ∀ pc, th.pc = some pc → ∀ o,
+      (pc.task = some (.obsStart o) ∨ ∃ b rest, pc.task = some (.obsRun o b rest)) →
+      ∃ vals, o = HM.obsOfVals bounds vals) := by
+  have O := HM.obsInv_reach h
+  refine ⟨O.claimed, ?_⟩
+  intro th hth pc hpc o ho
+  refine O.thr th hth pc hpc o ?_
+  rcases ho with ho | ⟨b, rest, ho⟩ <;> simp [HM.obsOfPc, ho, HM.obsOfTask]
+
+/-- **collect_value_stats** — C02 down to the values: for every `collect` call that returned while
+    a trace was replayed there is a list `valss` of value lists (one per observation of the cut, in
+    claim order; `S := valss.flatten` is the multiset of observed values the snapshot stands for) such
+    that the cut is exactly the observations of these calls, and
+    * the snapshot's sample count is the size of `S`,
+    * every bucket cell `c` is the number of values of `S` that fall into bucket `c`,
+    * the sum cell is the sum of `S`,
+    * the returned string is the rendering of exactly these numbers,
+    and the cut lies between the observations claimed at the call's start and at its unlock
+    (`collect_returns_cut`). -/
+theorem collect_value_stats {bounds : List UInt64} {prog : List (List String)} {s : HM.St}
+    (h : HM.MReach bounds prog s) :
+    ∀ r ∈ s.cuts, ∃ valss : List (List Int),
+      r.cut = valss.map (HM.obsOfVals bounds) ∧
+      totW r.cut = valss.flatten.length ∧
+      (∀ c, c < bounds.length → tot r.cut c =
+        ((valss.flatten.filter fun v => Prom.findBucket bounds (Conc.f64OfInt v) == some c).length : Int)) ∧
+      tot r.cut bounds.length = valss.flatten.foldl (· + ·) 0 ∧
+      r.rv = HM.showSnap bounds.length valss.flatten.length (HM.statCells bounds valss.flatten) ∧
+      r.c0 <+: r.cut ∧ r.cut <+: r.c1 ∧ r.c1 <+: s.core.claimed := by
+  intro r hr
+  obtain ⟨valss, hv⟩ := HM.cut_valss h r hr
+  obtain ⟨hrv, hpre⟩ := collect_returns_cut h r hr
+  refine ⟨valss, hv, ?_, ?_, ?_, ?_, hpre⟩
+  · rw [hv, HM.cut_totW]
+  · intro c hc; rw [hv, HM.cut_bucket _ _ _ hc]
+  · rw [hv, HM.cut_sum]
+  · rw [hrv, hv, HM.cut_totW, HM.cut_cells_eq]
+
+/-- **collect_value_semantics** — the statement of C02 in full, for strictly increasing bounds (what
+    `check_and_adjust_buckets` accepts, `C08.accepted_strictIncr`): the value every returned `collect`
+    call produced is the rendering (`HM.renderSnap`: count / sum bit pattern / cumulative counts) of
+    a set `S` of whole observations' values — its sample count is the size of `S`, its sample sum is
+    the sum of `S`, and every bucket's cumulative count is the number of values in `S` not greater
+    than that bucket's bound (`f64Le`, the IEEE `<=` the implementation uses) — where `S` is the values
+    of a prefix `cut` of the claim order that contains everything claimed before the call started and
+    nothing claimed after it released the lock. -/
+theorem collect_value_semantics {bounds : List UInt64} {prog : List (List String)} {s : HM.St}
+    (h : HM.MReach bounds prog s) (hs : Prom.StrictIncr bounds) :
+    ∀ r ∈ s.cuts, ∃ valss : List (List Int),
+      r.cut = valss.map (HM.obsOfVals bounds) ∧
+      r.rv = HM.renderSnap valss.flatten.length (valss.flatten.foldl (· + ·) 0)
+        (bounds.map fun b => valss.flatten.countP (fun v => Prom.f64Le (Conc.f64OfInt v) b)) ∧
+      r.c0 <+: r.cut ∧ r.cut <+: r.c1 ∧ r.c1 <+: s.core.claimed := by
+  intro r hr
+  obtain ⟨valss, hv⟩ := HM.cut_valss h r hr
+  obtain ⟨hrv, hpre⟩ := collect_returns_cut h r hr
+  refine ⟨valss, hv, ?_, hpre⟩
+  rw [hrv, hv, HM.showSnap_cut hs]
+
+/-- **cumulative_counts_are_le_counts** — for strictly increasing bounds the bucket cells `0..i` of a
+    cut add up to the number of its values that are `<=` bound `i` -/
+theorem cumulative_counts_are_le_counts {bounds : List UInt64} (hs : Prom.StrictIncr bounds)
+    (valss : List (List Int)) (i : Nat) (b : UInt64) (hb : bounds[i]? = some b) :
+    ((List.range (i + 1)).map fun c => tot (valss.map (HM.obsOfVals bounds)) c).sum =
+      (valss.flatten.countP (fun v => Prom.f64Le (Conc.f64OfInt v) b) : Int) :=
+  HM.cut_cum hs valss i b hb
 
 /-- non-vacuity: a reachable state with one observer and one collector that has returned a snapshot
     is built by `Reach.step`; here the simplest instance — the initial state is reachable and the
